@@ -108,10 +108,11 @@ def closure(f, faults=False):
             res = ip.run(b, tok=ustar)
             ex = set()
             for tag, toks in res.items():
+                for t in toks:
+                    exits_full.setdefault(op, {}).setdefault(tag, set()).add(t)
                 if tag is not None and tag.startswith('err'):
                     continue     # crash model: operations complete (fault sequences are C17)
                 for t in toks:
-                    exits_full.setdefault(op, {}).setdefault(tag, set()).add(t)
                     # requests issued by a function that can only end in a certain
                     # self-deadlock (C07 finding) never leave the operation
                     pt = frozenset(x for x in persistent(t) if not (x[0] == 'U' and x[2] in d.hang_frames))
